@@ -68,6 +68,10 @@ def gen_inputs(tier, rng):
                 jobs = [{"sp": typed({"a": v, "b": 0}), "doc": None}, {"sp": typed({"a": w, "b": 1}), "doc": None},
                         {"sp": typed({"b": 2}), "doc": None}]
                 descs.append({"jobs": jobs, "filters": filters})
+    # pinned: the witnesses of open finding C06 tag 1 (one index slot for values of different type)
+    descs.append({"jobs": [{"sp": typed({"a": True, "b": 0}), "doc": None}, {"sp": typed({"a": 1, "b": 1}), "doc": None},
+                           {"sp": typed({"a": -1, "b": 2}), "doc": None}, {"sp": typed({"a": -1.0, "b": 3}), "doc": None}],
+                  "filters": [typed(f) for f in ({"a.$type": "bool"}, {"a.$type": "int"}, {"a": {"$type": "float"}}, {"a": 1}, {"a": True})]})
     for i in range(ncorp):
         jobs = qg.rand_corpus(rng, clashy=(i % 4 == 0))
         filters = list(qg.FIXED) if i % 6 == 0 else rng.sample(qg.FIXED, 8)
